@@ -3,6 +3,7 @@ or report failure (exact identities + failure guard on the IR)."""
 from common import *
 from absint import lower_driver, Unsupported
 from tensoralg import *
+import os
 import poly as P
 
 RULE = ("Poly-domain abstract interpretation with path forking of TinyMatrixSolve<1|2|3>::exe (vector and matrix right-hand "
@@ -19,8 +20,127 @@ def detn(M):
     return det3(M)
 
 
+GUARD_EXCEPTIONS = {
+    "tfel::math::LUSolve::back_substitute": "divides by m(pi, i) without a local test: its in-tree caller LUSolve::exe runs LUDecomp<true>::exe first, "
+                                            "which raises LUNullPivot on every pivot below eps (re-checked: that call precedes it and its result cannot be ignored "
+                                            "because failure is an exception)",
+}
+
+
+def guard_rule(rep):
+    """R2 (generic LU kernels, N >= 4 and run-time sized): every division by a matrix element in LUDecomp::exe and in the
+    back_substitute kernels is dominated, on every path, by a comparison of the absolute value of that same element with
+    eps whose 'small' side raises or returns failure.  Element expressions are compared up to the row permutation
+    (m(p(i), i), m(pi, i) with pi = p(i) and m(i, i) denote the pivot of step i)."""
+    from cfg import load_functions, forward, branch
+    import re as _re
+    drv = os.path.join(VERIF, "drivers", "c07_kernels.cxx")
+    d = cfgdump([drv], os.path.join(OUT, "C07", "kernels"), funcs=r"^tfel::math::(TinyMatrixSolveBase<|LUDecomp<|LUSolve::|TinyMatrixInvert<)",
+                flags_for=lambda u: (header_flags(), VERIF))
+    funcs = [f for f in load_functions(d) if f.parent is None and f.entry is not None]
+    kernels = [f for f in funcs if f.qname.endswith("::back_substitute") or _re.search(r"LUDecomp<.*>::exe$", f.qname)]
+    if len(kernels) < 5:
+        raise AnalysisBroken("generic LU kernels: only %d instantiations found" % len(kernels))
+
+    def canon(f, sid):
+        t = f.text(sid)
+        # substitute locals initialised with a permutation lookup, then drop the permutation
+        for n in f.stmts.values():
+            if n["k"] == "DeclStmt":
+                for dd in n["decls"]:
+                    if "init" in dd and dd.get("name"):
+                        it = f.text(dd["init"])
+                        if _re.match(r"^p\([^()]*\)$", it):
+                            t = _re.sub(r"\b%s\b" % _re.escape(dd["name"]), it, t)
+        t = _re.sub(r"\bp\(([^()]*)\)", r"\1", t)
+        return _re.sub(r"\s+", "", t)
+
+    def is_element(f, sid):
+        s_ = f.strip(sid)
+        n = f.stmts.get(s_)
+        return n is not None and n["k"] == "CXXOperatorCallExpr" and n.get("op") == "()" and len(n.get("args", [])) == 3
+
+    for f in kernels:
+        def atom(f_, s):
+            bo = f_.binop(s)
+            if bo is None:
+                return None
+            op, l, r = bo
+            if op not in ("<", ">", "<=", ">="):
+                return None
+            ln = f_.stmts.get(f_.strip(l))
+            if ln is None or ln["k"] != "CallExpr" or not (ln.get("callee") or "").endswith("abs") or not ln.get("args"):
+                return None
+            if not is_element(f_, ln["args"][0]):
+                return None
+            if "eps" not in f_.text(r):
+                return None
+            return (("small", canon(f_, ln["args"][0])), op in (">", ">="))
+        bad = []
+        ndiv = [0]
+
+        def el(st, b, i, e):
+            if "s" not in e:
+                return (st,)
+            s = e["s"]
+            n = f.stmts[s]
+            facts = dict(st)
+            if n["k"] in ("UnaryOperator",) and n.get("op") in ("++", "--") or \
+                    (n["k"] in ("BinaryOperator", "CompoundAssignOperator") and n.get("op") in ("=", "+=", "-=") and
+                     f.stmts.get(f.strip(f.kids(s)[0]), {}).get("k") == "DeclRefExpr"):
+                v = f.text(f.kids(s)[0])
+                facts = dict((k, val) for k, val in facts.items() if not _re.search(r"\b%s\b" % _re.escape(v), k[1]))
+                return (tuple(sorted(facts.items())),)
+            div = None
+            if n["k"] == "BinaryOperator" and n.get("op") == "/":
+                div = f.kids(s)[1]
+            elif n["k"] == "CompoundAssignOperator" and n.get("op") == "/=":
+                div = f.kids(s)[1]
+            if div is not None and is_element(f, div):
+                ndiv[0] += 1
+                k = ("small", canon(f, div))
+                if facts.get(k) is not False:
+                    bad.append((s, k[1]))
+            return (st,)
+
+        def ed(st, b, succ, pol):
+            fx = branch(f, b, pol, dict(st), atom)
+            if fx is None:
+                return ()
+            return (tuple(sorted(fx.items())),)
+        forward(f, ((),), el, ed)
+        rep.count("divisions by a matrix element in the generic LU kernels", 1 if ndiv[0] else 0)
+        name = _re.sub(r"^tfel::math::", "", f.display if hasattr(f, "display") else f.qname)[:110]
+        if not ndiv[0]:
+            continue
+        if bad:
+            s, k = bad[0]
+            if f.qname in GUARD_EXCEPTIONS:
+                rep.ok("%s: unguarded division by %s accepted: %s" % (name, k, GUARD_EXCEPTIONS[f.qname]))
+                continue
+            rep.fail("UNGUARDED-PIVOT@%s" % _re.sub(r"<.*", "", f.qname.replace("tfel::math::", "")) + ("#matrix" if "tmatrix<" in " ".join(p_["type"] for p_ in f.params[2:3]) else ""),
+                     "%s: %s divides by %s on a path where |%s| was not compared with eps (failure side raising / returning false): an exactly "
+                     "null pivot gives inf/NaN silently" % (f.short_loc(s).replace(REPO + "/", ""), name, k, k))
+        else:
+            rep.ok("%s: every division by a pivot is dominated by its comparison with eps" % name)
+    # the exception's premise: LUSolve::exe calls LUDecomp<true>::exe before back_substitute
+    ex = [f for f in funcs if f.qname == "tfel::math::LUSolve::exe" and len(f.params) == 4]
+    if not ex:
+        raise AnalysisBroken("LUSolve::exe(m, b, x, p) not instantiated")
+    order = [n.get("callee") or "" for s_, n in sorted(ex[0].stmts.items()) if n["k"] == "CallExpr"]
+    pos = dict((c, i) for i, c in reversed(list(enumerate(order))))
+    dcp = [c for c in order if _re.match(r"tfel::math::LUDecomp<true.*>::exe", c)]
+    if not dcp or "tfel::math::LUSolve::back_substitute" not in pos or pos[dcp[0]] > pos["tfel::math::LUSolve::back_substitute"]:
+        rep.fail("UNGUARDED-PIVOT@LUSolve::exe", "LUSolve::exe no longer runs LUDecomp<true>::exe before back_substitute: the unguarded division of "
+                 "LUSolve::back_substitute is reachable with a null pivot")
+    else:
+        rep.ok("LUSolve::exe runs LUDecomp<true>::exe (raises on a null pivot) before LUSolve::back_substitute")
+    rep.floor("divisions by a matrix element in the generic LU kernels", 5)
+
+
 def run(tier):
     rep = Report("C07", tier, "other", RULE)
+    guard_rule(rep)
     rep.trusted += ["clang 14 code generation and -O2", "bin/ir2json, lib/absint.py, lib/poly.py"]
     for opt in ["-O2"] + (["-O1"] if tier == "thorough" else []):
         P.reset_registry()
@@ -80,5 +200,5 @@ def run(tier):
     rep.floor("solver instantiations interpreted (-O2)", 6)
     rep.floor("paths explored", 18)
     rep.assumptions += ["exact real arithmetic: residual size versus conditioning and the quality of the threshold are not decided",
-                        "the generic LU path (N >= 4, LUSolve, QR) is not covered by this check"]
+                        "generic LU path (N >= 4, LUSolve): only the pivot-guard rule is decided (no solution identity); QR is not covered"]
     return rep
